@@ -495,7 +495,7 @@ def case_hist(c):
 
 
 # ------------------------------------------------------------------------------------------ stateless forms
-SUPPLIED = ['est', 'sup:fixed', 'sup:own', 'sup:zero']
+SUPPLIED = ['est', 'sup:fixed', 'sup:own', 'sup:zero', 'sup:f32', 'sup:f16']      # f32 / f16: the supplied statistics as narrow numpy scalars
 CPAIRS = [('ramp', 'gauss'), ('ramp', 'const'), ('gauss', 'const'), ('const', 'ramp'), ('huge', 'tiny'),
           ('two', 'huge'), ('c:0.1:7', 'c:1.9:7'), ('c:1e+150:100', 'c:-2.7:100'), ('single', 'c:0.1:1')]
 
@@ -604,13 +604,14 @@ def case_func(c):
                     if mode == 'est':
                         dm, ds, me, se, s_ = st.mean, st.std, True, True, st
                     else:
-                        if mode == 'sup:fixed':
-                            dm, ds = 0.25, 1.5
+                        if mode in ('sup:fixed', 'sup:f32', 'sup:f16'):
+                            dm, ds = 0.25, 1.5           # (both exact in half precision)
                         elif mode == 'sup:own':
                             dm, ds = float(st.mean), float(st.std)
                         else:                      # zero deviation, mean deliberately NOT the sample value
                             dm, ds = float(x[0]) + 1.5, 0.0
-                        kw.update(data_mean=dm, data_std=ds)
+                        ty_ = {'sup:f32': np.float32, 'sup:f16': np.float16}.get(mode, float)
+                        kw.update(data_mean=ty_(dm), data_std=ty_(ds))
                         me, se, s_ = False, False, None
                     q = call(site, lambda: Q.quantize_real(x, **kw), const_in and ds == 0, sub)
                     res['n'] += 1
